@@ -175,8 +175,11 @@ func genBitmap(r *vh.Rng, th bool) []Case {
 			{K: "aspec", H: 2, A: u1, PL: sg.pl},
 		}
 		ml := maxLen
-		if gi >= 3 && th {
+		if th && gi >= 1 {
 			ml = 3
+		}
+		if th && gi >= 3 {
+			ml = 2
 		}
 		if gi >= 3 && !th {
 			ml = 1
@@ -190,7 +193,7 @@ func genBitmap(r *vh.Rng, th bool) []Case {
 		// sampled longer sequences over the same alphabet
 		ns := 50
 		if th {
-			ns = 2500
+			ns = 600
 		}
 		for i := 0; i < ns; i++ {
 			n := ml + 1 + r.Intn(3)
@@ -205,7 +208,7 @@ func genBitmap(r *vh.Rng, th bool) []Case {
 	// --- random long histories on pools up to 4096 units ---
 	nl := 40
 	if th {
-		nl = 1500
+		nl = 600
 	}
 	for i := 0; i < nl; i++ {
 		out = append(out, genBitmapLong(r.Fork()))
